@@ -360,6 +360,11 @@ theorem colArg_one (d : Option Rat) (c : String) (idx : List Int) (n : String) (
   intro t _
   exact lookF_one idx n col h m t
 
+/-- a Series result packed as a one-column frame (`pd.DataFrame(res)`) -/
+def wrap1 (name : String) : Operand → FOperand
+  | .ts r => .df { idx := r.idx, cols := [(name, r.vals)] }
+  | .num q => .num q
+
 /-! ### aggregates on frames -/
 
 
